@@ -6,7 +6,7 @@ from .common import Exc
 from .url_grammar import gen_su, spelling_variants, call, gen_url, wrap_redirect
 from .norm_common import DEFAULTS
 
-THEOREMS = ['C04_inference_is_a_prestep', 'C04_query_order_irrelevant'] + ["(main statement: harness deciders on the implementation + model correspondence — partial)"]
+THEOREMS = ['C04_inference_is_a_prestep', 'C04_query_order_irrelevant', 'C04_surrounding_junk_core', 'C04_surrounding_junk'] + ["(main statement: harness deciders on the implementation + model correspondence — partial)"]
 TRACKING = ["utm_source=x", "utm_campaign=a%20b", "fbclid=IwAR", "gclid=1", "ref=twitter", "ref=fb", "m=1", "s=09", "amp=1", "amp_js_v=0.1", "outputType=amp", "UTM_MEDIUM=z",
             "__twitter_impression=true", "sessionid=4", "mode=amp", "spref=tw", "_ga=2.1", "at_medium=c", "xtor=RSS-1", "phpsessionid=1", "JSESSIONID=2", "usqp=mq331AQ", "mc_cid=7"]
 
@@ -144,6 +144,8 @@ def run(res, tier, rng):
     # the same family on redirect-carrying urls: the letter case of the redirector's host and the order of its items
     # do not decide whether the redirection is seen
     import urllib.parse as UP
+    has_n20 = any(k.get("property") == "C04" and k.get("id") == "F-N20" and k.get("status") == "known" for k in common.load_known())
+    n20_hit = {}
     for _ in range(600 if tier == "quick" else 10000):
         w = wrap_redirect(gen_su(rng, hosts=hosts).render(), rng)
         if "://" not in w:
@@ -154,17 +156,27 @@ def run(res, tier, rng):
             continue
         nb = call(normalize_url, w)
         vs = [("host case of a redirect-carrying url", UP.urlunsplit(r._replace(netloc=r.netloc.upper())))]
+        if w.startswith("http://"):
+            vs.append(("scheme of a redirect-carrying url", w[len("http://"):]))
+            vs.append(("scheme of a redirect-carrying url", "https://" + w[len("http://"):]))
         items = r.query.split("&") if r.query else []
         if len(items) >= 2:
             vs.append(("item order of a redirect-carrying url", UP.urlunsplit(r._replace(query="&".join(items[::-1])))))
             vs.append(("item order of a redirect-carrying url", UP.urlunsplit(r._replace(query="&".join(items[1:] + items[:1])))))
+        if len(items) >= 2:
+            vs.append(("'&amp;' for '&' in a redirect-carrying url", UP.urlunsplit(r._replace(query="&amp;".join(items)))))
         for name, v in vs:
             res.evaluations += 1
             nv = call(normalize_url, v)
             if nv != nb:
+                if name.startswith("'&amp;'") and has_n20 and call(normalize_url, w, infer_redirection=False) == call(normalize_url, v, infer_redirection=False):
+                    n20_hit.setdefault("F-N20", "'&amp;' written for '&' in front of a redirect key hides the redirection: normalize_url(%r) = %r but %r with plain '&'" % (v, nv, nb))
+                    continue
                 res.violation("property", "documented-irrelevant variation '%s' changes normalize_url" % name, input=dict(url=w, variant=v), impl=[nb, nv])
             else:
                 nontriv.add(v)
+    for fid, text in n20_hit.items():
+        res.known_hits.append((fid, text))
     res.nontrivial = nontriv
     res.rule = ("structured base urls x every documented-irrelevant transformation alone (scheme / none / '//', userinfo, www / www2 / m / mobile / amp. / amp- / stacked subdomains, default ports, "
                 "host case, trailing slash, trailing index / default page, non-routing fragment, a tracking / session / AMP item at a random position, every permutation of 2-4 items, "
